@@ -113,6 +113,13 @@ impl Engine for Msim {
                 strategy: gen::sweep2_case(&ctx.prop, thorough),
             });
         }
+        if ctx.prop == "C06" {
+            stages.push(Stage {
+                name: "rotate-then-close".into(),
+                cases: if thorough { 16 * 4000 } else { 16 * 300 },
+                strategy: gen::rotate_then_close_case(),
+            });
+        }
         if ctx.prop == "C07" {
             stages.push(Stage {
                 name: "resize-overlap".into(),
